@@ -44,6 +44,10 @@ func fieldCallName(c *ssa.Call) string {
 
 func runC16(r *Run) {
 	const P = "C16"
+	// "unless the operation handler discards it as expired": expiry is a discard, never a refusal of the batch — the
+	// handler fails a batch only because something it called failed (a refused batch returns to the queue and is
+	// retried for ever, blocking everything behind it)
+	r.checkHandlerErrorsPropagated(P)
 	// --- ack.nack
 	if f := r.fn(P, pkgBatch, "Writer.cutAndProcess"); f != nil {
 		ff := r.E.Facts(f, core.Ctx{})
@@ -271,6 +275,7 @@ func runC16(r *Run) {
 		}
 		r.R.Check(okStop, P+".add.stopped", "E8 never-before: the writer queues an operation only under Stopped() = false", core.FuncName(f), r.where(f),
 			"an operation accepted by a stopped writer is acknowledged to the client and never anchored", "queued only while running", "the operation is queued without the Stopped() test")
+		r.checkEnqueueFinal(P, f)
 	}
 	if f := r.fn(P, pkgBatch, "Writer.drain"); f != nil {
 		ok := false
@@ -879,4 +884,80 @@ func (r *Run) checkLockPairing(P string) {
 		}
 	}
 	r.R.Floor(P+".lock.pairing.floor", "instance floor", n, 6, "Lock/RLock calls in the queue package")
+}
+
+// checkEnqueueFinal: once the queue has accepted the operation, Writer.Add reports success — an error reported after
+// a successful enqueue makes the caller undo its side (compensating delete, error to the client) while the operation
+// stays in the queue and is anchored later.
+func (r *Run) checkEnqueueFinal(P string, f *ssa.Function) {
+	ff := r.E.Facts(f, core.Ctx{})
+	rets := map[*ssa.BasicBlock]core.RetClass{}
+	for _, ri := range ff.Returns() {
+		rets[ri.Ret.Block()] = ri.Class
+	}
+	n := 0
+	var bad []string
+	for _, c := range r.callsIn(f, "BatchCutter.Add", "batchCutter.Add", "cutter.Add") {
+		ct := ff.TB.Of(c).String()
+		for _, b := range f.Blocks {
+			for _, s2 := range b.Succs {
+				isOK := false
+				for _, fc := range ff.EdgeFacts(b, s2) {
+					if fc.Kind == "ok" && fc.A != nil && fc.A.String() == ct {
+						isOK = true
+					}
+				}
+				if !isOK {
+					continue
+				}
+				n++
+				visit := func(x *ssa.BasicBlock) bool {
+					if cl, isRet := rets[x]; isRet && cl == core.RetFail {
+						bad = append(bad, "an error is returned at "+r.P.Pos(x.Instrs[len(x.Instrs)-1].Pos())+" after the queue accepted the operation")
+					}
+					return false
+				}
+				visit(s2)
+				ff.WalkFeasible([]*ssa.BasicBlock{b, s2}, nil, visit)
+			}
+		}
+	}
+	r.R.Check(n >= 1 && len(bad) == 0, P+".add.final", "E8 exit classes: from the nil-error edge of the queue's Add only success returns of Writer.Add are reachable", core.FuncName(f), r.where(f),
+		"the caller treats an error as 'not queued' (it deletes the unpublished operation and reports failure); if the operation is in the queue nevertheless, it is anchored although the client was told it was refused",
+		fmt.Sprintf("%d accepting edge(s), only success returns behind them", n), strings.Join(dedupe(bad), "; "))
+}
+
+// checkHandlerErrorsPropagated: every error return of PrepareTxnFiles (and of the operation parsing it starts with)
+// hands on the failure of a call; the only rejection of its own is the empty input.
+func (r *Run) checkHandlerErrorsPropagated(P string) {
+	n := 0
+	var bad []string
+	for _, name := range []string{"OperationHandler.PrepareTxnFiles", "OperationHandler.parseOperations"} {
+		f := r.fn(P, pkgProvider, name)
+		if f == nil {
+			return
+		}
+		ff := r.E.Facts(f, core.Ctx{})
+		for _, ri := range ff.Returns() {
+			if ri.Class != core.RetFail {
+				continue
+			}
+			n++
+			okRet := false
+			for _, fc := range ri.Facts {
+				if fc.Kind == "fail" {
+					okRet = true
+				}
+			}
+			if !okRet && core.HasFact(ri.Facts, "cmp(len($1) == 0)") {
+				okRet = true // nothing to anchor was handed in
+			}
+			if !okRet {
+				bad = append(bad, core.FuncName(f)+" rejects the batch on its own at "+r.P.Pos(ri.Ret.Pos()))
+			}
+		}
+	}
+	r.R.Check(n >= 6 && len(bad) == 0, P+".handler.errors.propagated", "E8 exit classes: every error return of the operation handler's batch preparation carries the failure of a call it made (or the empty input)", "OperationHandler.PrepareTxnFiles / parseOperations", "pkg/versions/1_0/txnprovider/handler.go",
+		"a batch the handler refuses is put back at the head of the queue and cut again on the next tick: a refusal that depends on the operations themselves (all of them expired, say) repeats for ever and nothing behind them is anchored",
+		fmt.Sprintf("%d error returns, all propagated", n), strings.Join(bad, "; "))
 }
